@@ -48,6 +48,22 @@ def fp_value(m, t):
     return float(v.as_fraction())
 
 
+def float32_exact_model(s, cells, st):
+    """A real-valued model may not survive the cast to float32.  Ask for one whose cells are
+    k * 2**e with |k| < 2**20 (exactly representable); returns a z3 model or None."""
+    for e in (0, -8, -30, -60, -90, 20):
+        s.push()
+        ks = [z3.Int(f"k_{i}") for i in range(len(cells))]
+        scale = z3.RealVal(2) ** e if e >= 0 else 1 / (z3.RealVal(2) ** (-e))
+        s.add([z3.And(c == z3.ToReal(k) * scale, k > -2 ** 20, k < 2 ** 20) for c, k in zip(cells, ks)])
+        r = z3_check(s, st, 120000)
+        m = s.model() if r == "sat" else None
+        s.pop()
+        if m is not None:
+            return m
+    return None
+
+
 def encode(n, d, mode, groups):
     """groups: list of row-index lists (partition of range(n)).  Returns (cells, mask cells, side constraints, stats)."""
     I.MODE["float"] = "fp" if mode == "fp32" else "real"
@@ -67,6 +83,8 @@ def encode(n, d, mode, groups):
     if mode == "fp32":
         solver.add([z3.Not(z3.fpIsNaN(c)) for c in cells])
     it = I.Interp(kernel_source(), {"np": I.NP, "numba": I.NUMBA, "range": I._range, "NUMPY_FLOAT_TYPE": NFT}, solver)
+    import accelforge.mapper.FFM._pareto_df.fast_pareto as FP
+    it.module_globals = vars(FP)
     it.run({"data": data, "sorted_idx": I.SArr((n,), sorted_idx, dtype="int"), "offsets": I.SArr((len(offsets),), offsets, dtype="int"),
             "n_total_groups": len(groups), "result_mask": mask})
     return cells, mask.cells, list(it.side), it.n_feas
@@ -159,6 +177,7 @@ def shard(payload):
             if mode == "fp32":
                 mat = [[fp_value(m, cells[i * d + k]) for k in range(d)] for i in range(n)]
             else:
+                m = float32_exact_model(s, cells, st) or m
                 mat = []
                 for i in range(n):
                     row = []
@@ -187,6 +206,45 @@ def shard(payload):
     dd["violations"] = viol
     dd["known"] = known
     return dd
+
+
+def is_constant_obligation(n, mode, st):
+    """_is_constant(arr, n) is True iff all n entries are equal (it decides which objective columns
+    the filter ignores)."""
+    import accelforge.mapper.FFM._pareto_df.fast_pareto as FP
+    f = FP._is_constant
+    src = inspect.getsource(getattr(f, "py_func", f))
+    src = src[src.index("def _is_constant"):]
+    I.MODE["float"] = "fp" if mode == "fp32" else "real"
+    cells = [z3.Real(f"a{i}") for i in range(n)] if mode == "real" else [z3.FP(f"a{i}", I.FP32) for i in range(n)]
+    solver = z3.Solver()
+    if mode == "fp32":
+        solver.add([z3.Not(z3.fpIsNaN(c)) for c in cells])
+    it = I.Interp(src, {"range": I._range}, solver)
+    it.module_globals = vars(FP)
+    it.run({"arr": I.SArr((n,), cells, dtype="real" if mode == "real" else "fp32"), "n": n})
+    eq = (lambda a, b: z3.fpEQ(a, b)) if mode == "fp32" else (lambda a, b: a == b)
+    spec = z3.And([eq(cells[0], c) for c in cells[1:]])
+    s = z3.Solver()
+    if mode == "fp32":
+        s.add([z3.Not(z3.fpIsNaN(c)) for c in cells])
+    s.add(I.zbool(it.retval) != spec)
+    r = z3_check(s, st, 120000)
+    count_obligation(st, r, f"_is_constant n={n} {mode}")
+    if r == "sat":
+        m = s.model()
+        if mode == "real":
+            m = float32_exact_model(s, cells, st) or m
+        vals = [fp_value(m, c) if mode == "fp32" else float(m.eval(c, model_completion=True).as_fraction()) for c in cells]
+        import numpy as np
+        got = bool(f(np.array(vals, dtype=np.float32), n))
+        exp = len(set(np.array(vals, dtype=np.float32).tolist())) == 1
+        st.replays += 1
+        if got == exp:
+            raise HarnessError(f"_is_constant model does not reproduce: {vals}")
+        return [dict(property=PID, matrix=[[v, float(i)] for i, v in enumerate(vals)], groups=[list(range(n))], mode=mode, key=None, kept=None, expected=None,
+                     what=f"_is_constant({vals}) returns {got}: a column with distinct values is treated as constant (or vice versa), so the filter ignores an objective")]
+    return []
 
 
 def cast_probe(st):
@@ -232,6 +290,8 @@ def run(args):
     stats = Stats()
     violations = []
     known_recs = cast_probe(stats)
+    for n_, mode_ in ((3, "real"), (4, "real"), (3, "fp32")):
+        violations.extend(is_constant_obligation(n_, mode_, stats))
     res = run_sharded(shard, [(n, d, mode, g, True) for n, d, mode, g in shapes], args.jobs)
     for r in res:
         stats.merge(r)
@@ -247,7 +307,7 @@ def run(args):
             violations.append(rec)
     return finish(
         PID, args.tier, "model_checking", stats, t0, violations[:5], known,
-        functions_encoded=["fast_pareto._sfs_bnl_core (source fetched with inspect.getsource at run time; all four paths: d==1, one varying column, two varying columns, SFS + block BNL)"],
+        functions_encoded=["fast_pareto._is_constant", "fast_pareto._sfs_bnl_core (source fetched with inspect.getsource at run time; all four paths: d==1, one varying column, two varying columns, SFS + block BNL)"],
         bounds=dict(shapes=[f"{n}x{d} {mode} groups={g}" for n, d, mode, g in shapes], unwinding="loops unrolled until the solver proves no further iteration reachable (cap 64)",
                     values="reals: unbounded and |x|<1e6; float32: all non-NaN incl. +-inf, and finite |x|<1e30",
                     outside="numba fastmath code generation (replays run the compiled function), NaN, > 6 symbolic rows, second BNL block (needs > 16 kept rows), "
